@@ -35,7 +35,14 @@ impl Parse for IdentOrBool {
 
 #[inline]
 pub(crate) fn meta_name_value_2_ident(name_value: &MetaNameValue) -> syn::Result<Ident> {
-    match &name_value.value {
+    let mut value = &name_value.value;
+
+    // a value forwarded through a `macro_rules!` fragment (e.g. `$v:expr`) is wrapped in invisible groups
+    while let Expr::Group(group) = value {
+        value = group.expr.as_ref();
+    }
+
+    match value {
         Expr::Lit(lit) => {
             if let Lit::Str(lit) = &lit.lit {
                 return lit.parse();
@@ -75,7 +82,14 @@ pub(crate) fn meta_2_ident(meta: &Meta) -> syn::Result<Ident> {
 
 #[inline]
 pub(crate) fn meta_name_value_2_bool(name_value: &MetaNameValue) -> syn::Result<bool> {
-    if let Expr::Lit(lit) = &name_value.value {
+    let mut value = &name_value.value;
+
+    // a value forwarded through a `macro_rules!` fragment (e.g. `$v:expr`) is wrapped in invisible groups
+    while let Expr::Group(group) = value {
+        value = group.expr.as_ref();
+    }
+
+    if let Expr::Lit(lit) = value {
         if let Lit::Bool(b) = &lit.lit {
             return Ok(b.value);
         }
@@ -112,7 +126,14 @@ pub(crate) fn meta_2_bool_allow_path(meta: &Meta) -> syn::Result<bool> {
 pub(crate) fn meta_name_value_2_ident_and_bool(
     name_value: &MetaNameValue,
 ) -> syn::Result<IdentOrBool> {
-    match &name_value.value {
+    let mut value = &name_value.value;
+
+    // a value forwarded through a `macro_rules!` fragment (e.g. `$v:expr`) is wrapped in invisible groups
+    while let Expr::Group(group) = value {
+        value = group.expr.as_ref();
+    }
+
+    match value {
         Expr::Lit(lit) => match &lit.lit {
             Lit::Str(lit) => match lit.parse::<Ident>() {
                 Ok(ident) => return Ok(IdentOrBool::Ident(ident)),
